@@ -240,7 +240,7 @@ Proof.
     destruct e as [gid isfunc ins outs| |nid nins nouts]; simpl in W.
     + (* EEnter *) apply (K (S d)); [|exact W]. simpl.
       destruct D as [D1 D2]. destruct (f_vscopes s) as [|top rest] eqn:Hsc; [discriminate|].
-      set (s1 := mkF (f_rv s) (f_rn s) (f_vn s) (f_nn s) (f_inits s) (f_seen s) (f_vcnt s) (f_ncnt s) (top :: top :: rest) ([] :: f_nscopes s) (f_mod s)).
+      set (s1 := mkF (f_vx s) (f_nx s) (f_rv s) (f_rn s) (f_vn s) (f_nn s) (f_inits s) (f_seen s) (f_vcnt s) (f_ncnt s) (top :: top :: rest) ([] :: f_nscopes s) (f_mod s)).
       assert (D' : depth_ok (S d) s1) by (unfold depth_ok, s1; simpl in *; split; congruence).
       assert (F : step_fine (S d) s1
                 (fbind (process_values ins s1) (fun s2 => fbind (process_values outs s2) (fun s3 =>
@@ -299,15 +299,15 @@ Proof.
       repeat (rewrite <- app_assoc in Hg; simpl in Hg). repeat (rewrite <- app_assoc; simpl). exact Hg.
 Qed.
 
-Lemma fix_graph_names_no_inits g vn nn inits m :
+Lemma fix_graph_names_no_inits g vx nx vn nn inits m :
   (forall v, owner_of v inits = None) ->
-  let r := fix_graph_names g vn nn inits m in snd r = None /\ no_inits (fst r).
+  let r := fix_graph_names g vx nx vn nn inits m in snd r = None /\ no_inits (fst r).
 Proof.
   intros N. unfold fix_graph_names. destruct (collect_names (events_graph g) vn nn inits) as [rv rn].
   assert (W : wb 0 (events_graph g)) by (rewrite <- (app_nil_r (events_graph g)); apply events_balanced; exact I).
-  assert (D : depth_ok 0 (fx_init rv rn vn nn inits m)) by (split; reflexivity).
+  assert (D : depth_ok 0 (fx_init vx nx rv rn vn nn inits m)) by (split; reflexivity).
   pose proof (fx_events_fine _ _ _ W D) as F. unfold run_fine in F.
-  destruct (fx_events (events_graph g) (fx_init rv rn vn nn inits m)) as [s' [e|]] eqn:E; simpl in *.
+  destruct (fx_events (events_graph g) (fx_init vx nx rv rn vn nn inits m)) as [s' [e|]] eqn:E; simpl in *.
   - destruct F as [_ F]. exfalso. apply F. exact N.
   - split; [reflexivity | apply F; exact N].
 Qed.
@@ -315,22 +315,22 @@ Qed.
 Lemma fix_all_no_inits gs : forall s, no_inits s -> snd (fix_all gs s) = None.
 Proof.
   induction gs as [|g r IH]; intros s N; simpl; [reflexivity|].
-  destruct (fix_graph_names_no_inits g (f_vn s) (f_nn s) (f_inits s) (f_mod s) N) as [A B].
-  unfold fbind. destruct (fix_graph_names g (f_vn s) (f_nn s) (f_inits s) (f_mod s)) as [s1 e]. simpl in *.
+  destruct (fix_graph_names_no_inits g (f_vx s) (f_nx s) (f_vn s) (f_nn s) (f_inits s) (f_mod s) N) as [A B].
+  unfold fbind. destruct (fix_graph_names g (f_vx s) (f_nx s) (f_vn s) (f_nn s) (f_inits s) (f_mod s)) as [s1 e]. simpl in *.
   subst e. apply IH. exact B.
 Qed.
 
 (* C15_fix_total_partial: a model in which no graph has initializers is never rejected *)
-Lemma name_fix_pass_total_no_inits main funcs vn nn inits :
-  (forall v, owner_of v inits = None) -> snd (name_fix_pass main funcs vn nn inits) = None.
+Lemma name_fix_pass_total_no_inits main funcs vx nx vn nn inits :
+  (forall v, owner_of v inits = None) -> snd (name_fix_pass main funcs vx nx vn nn inits) = None.
 Proof. intros N. unfold name_fix_pass. apply fix_all_no_inits. exact N. Qed.
 
 (* the only exception a run can end with is the ValueError of the initializer name guard *)
-Lemma fix_graph_names_only_valueerror g vn nn inits m e :
-  snd (fix_graph_names g vn nn inits m) = Some e -> e = ValueError.
+Lemma fix_graph_names_only_valueerror g vx nx vn nn inits m e :
+  snd (fix_graph_names g vx nx vn nn inits m) = Some e -> e = ValueError.
 Proof.
   unfold fix_graph_names. destruct (collect_names (events_graph g) vn nn inits) as [rv rn]. intros H.
   assert (W : wb 0 (events_graph g)) by (rewrite <- (app_nil_r (events_graph g)); apply events_balanced; exact I).
-  assert (D : depth_ok 0 (fx_init rv rn vn nn inits m)) by (split; reflexivity).
+  assert (D : depth_ok 0 (fx_init vx nx rv rn vn nn inits m)) by (split; reflexivity).
   pose proof (fx_events_fine _ _ _ W D) as F. unfold run_fine in F. rewrite H in F. tauto.
 Qed.
